@@ -9,7 +9,7 @@ _PENDING = 'check not built yet in this round (planned: DESIGN.md section 3); no
 
 CHECKS = {
     'C10': {
-        'text': 'Levinson.tla / Toeplitz.tla: TLC enumerates every bounded lag sequence, checks the envelope (T[1,a]=[P,0..], product formula, |k|<1, Schur-Cohn step-down, nesting) on the model in exact complex-rational arithmetic, and every visited state is replayed into LEVINSON / HERMTOEP / TOEPLITZ / CHOLESKY with exact expected values; large orders via observation events validated by TLC.',
+        'text': 'Levinson.tla / Toeplitz.tla: TLC enumerates every bounded lag sequence, checks the envelope (T[1,a]=[P,0..], product formula, |k|<1, Schur-Cohn step-down, nesting) on the model in exact complex-rational arithmetic, and every visited state is replayed into LEVINSON / HERMTOEP / TOEPLITZ / CHOLESKY with exact expected values; large orders via observation events validated by TLC. Homogeneity: every state is also solved after scaling the system by 2^-40 / 2^30 (exact in binary floating point); complex Toeplitz systems have a complex diagonal.',
         'design_ref': 'DESIGN.md 3/C10',
         'note': 'Exactness only inside the bounded universe (order <= 4 real, <= 3 complex, small integer lags); orders up to 40 only through quantised observation events. Trusted: TLC, the value parser, float comparison at 1e-8.',
         'technique': 'TLA+ exact-arithmetic stage machine + TLC exhaustive enumeration + spec-state replay into the code',
@@ -17,7 +17,7 @@ CHECKS = {
 }
 
 CHECKS['C06'] = {
-    'text': 'Axis.tla / SidesConv.tla: a stored PSD under every sequence of sides assignments (all basis vectors, NFFT 1..9/12, real and complex, histories <= 3/4); TLC checks length, power, axis alignment, equal split and path independence on the model; each state (one history) is replayed on a real Spectrum object (sides setter, get_converted_psd, frequencies) and each one-step conversion on the tools helpers and arma2psd(centerdc); values are dyadic so comparison is exact.',
+    'text': 'Axis.tla / SidesConv.tla: a stored PSD under every sequence of sides assignments (all basis vectors, NFFT 1..9/12, real and complex, histories <= 3/4); TLC checks length, power, axis alignment, equal split and path independence on the model; each state (one history) is replayed on a real Spectrum object (sides setter, get_converted_psd, frequencies) and each one-step conversion on the tools helpers and arma2psd(centerdc); values are dyadic so comparison is exact. HelpersConv.tla: the tools helpers on arbitrary (asymmetric) two-sided vectors at three scales; AxisProofs.tla is re-proved by TLAPS at each run; ObsC06.tla judges frequencies(s) of real objects for NFFT up to 1024 x 13 sampling rates over eight decades with SLen / Bin of AxisIdx.tla.',
     'design_ref': 'DESIGN.md 2.1, 3/C06',
     'note': 'By linearity only basis vectors are stored; NFFT <= 12. Trusted: TLC, the dump parser, exact float comparison of dyadic values.',
     'technique': 'TLA+ layout/conversion model + TLC exhaustive histories + per-state script replay on the real object',
@@ -31,14 +31,14 @@ CHECKS['C07'] = {
 }
 
 CHECKS['C08'] = {
-    'text': 'Arma2Psd.tla gives the exact lag-domain description of (rho/T)|B|^2/|A|^2 for every coefficient vector of the bounded universe (TLC checks lag-domain = direct evaluation at NFFT=4, positivity, symmetry) and each state is replayed into arma2psd at even/odd NFFT; the "scaled exactly once" clause is validated by TLC on recorded traces of all 12 classes (SpectrumTrace.tla); ObsC08.tla holds the per-class sampling rule (divides / unchanged / multiplies) and validates observation events on float data with sampling in (1e-2, 1e5).',
+    'text': 'Arma2Psd.tla gives the exact lag-domain description of (rho/T)|B|^2/|A|^2 for every coefficient vector of the bounded universe (TLC checks lag-domain = direct evaluation at NFFT=4, positivity, symmetry) and each state is replayed into arma2psd at even/odd NFFT; the "scaled exactly once" clause is validated by TLC on recorded traces of all 12 classes (SpectrumTrace.tla); ObsC08.tla holds the per-class sampling rule (divides / unchanged / multiplies) and validates observation events on float data with sampling in (1e-2, 1e5). The data amplitude varies over nine decades; 2 pi/df uses the requested NFFT; the axis sweep of ObsC06.tla (NFFT up to 1024 x 13 sampling rates) decides the proportional-axis clause.',
     'design_ref': 'DESIGN.md 3/C08',
     'note': 'arma2psd exact only for orders <= 2 with coefficient parts in -1..1 (-2..2 thorough); class-level clauses decided from quantised observation events (1e-6 relative). Trusted: TLC, float evaluation of roots of unity in the harness.',
     'technique': 'TLA+ exact lag-domain kernel spec + TLC enumeration + replay; TLC trace validation of recorded object traces and observation events',
 }
 
 CHECKS['C09'] = {
-    'text': 'Correlation.tla defines every normalisation of the (cross-)correlation from the definition in exact complex-rational arithmetic; TLC enumerates all small x (and y, equal and unequal lengths), checks r[0]=mean|x|^2>=|r[k]|, coefficient normalisation, Hermitian lags and Gram(data matrix)=N*Toeplitz on the model, and every final state is replayed into CORRELATION and xcorr (all norms, several maxlags, list/array entry); CorrMtxEnum.tla gives the index matrix of corrmtx for every (N, m, method). N up to 200: observation events validated by ObsC09.tla.',
+    'text': 'Correlation.tla defines every normalisation of the (cross-)correlation from the definition in exact complex-rational arithmetic; TLC enumerates all small x (and y, equal and unequal lengths), checks r[0]=mean|x|^2>=|r[k]|, coefficient normalisation, Hermitian lags and Gram(data matrix)=N*Toeplitz on the model, and every final state is replayed into CORRELATION and xcorr (all norms, several maxlags, list/array entry); CorrMtxEnum.tla gives the index matrix of corrmtx for every (N, m, method). N up to 200: observation events validated by ObsC09.tla. Every state is also replayed at 2^-40 / 2^30 times the data (degree-2 homogeneity, degree 0 for coeff).',
     'design_ref': 'DESIGN.md 3/C09',
     'note': 'Exact universe: real N<=4/5 (parts -1..1 / -2..2), complex N<=3/4, cross pairs N<=3; cross-correlation coeff normalisation is outside the statement. Positive semi-definiteness at large N is measured by numpy eigvalsh (quantised) and judged by the spec.',
     'technique': 'TLA+ exact definition + TLC enumeration + state replay; TLC-validated observation events',
@@ -58,28 +58,28 @@ CHECKS['C12'] = {
     'technique': 'TLA+ exact kernel composition + TLC enumeration + state replay; TLC-validated observation events',
 }
 CHECKS['C13'] = {
-    'text': 'Burg.tla: arburg as a stage machine (in-place error arrays, denominator recursion, step-up, variance update) with the envelope evaluated from definitions: |k|<=1, step-up(ref)=a, rho=mean|x|^2 prod(1-|k_i|^2) non-increasing, error arrays = prediction-error-filter outputs, denominator = stage energy, first-order optimality of each k; every stage state is replayed into arburg, _arburg2 and pburg, and with each criterion name the result must be the spec state of order len(ref). N up to 200: ObsC13.tla.',
+    'text': 'Burg.tla: arburg as a stage machine (in-place error arrays, denominator recursion, step-up, variance update) with the envelope evaluated from definitions: |k|<=1, step-up(ref)=a, rho=mean|x|^2 prod(1-|k_i|^2) non-increasing, error arrays = prediction-error-filter outputs, denominator = stage energy, first-order optimality of each k; every stage state is replayed into arburg, _arburg2 and pburg, and with each criterion name the result must be the spec state of order len(ref). N up to 200: ObsC13.tla. ObsC13.tla also requires every returned k_i to minimise the forward+backward error of its stage (errors rebuilt from the returned k_1..k_{i-1}), at orders up to 40 and on 60 dB tones (orders <= 4).',
     'design_ref': 'DESIGN.md 3/C13',
     'note': 'Exact universe: real N<=5/6 order<=3, complex N<=4 order<=2; degenerate stages (zero denominator, rho=0) and overflowing states are excluded and counted. Criteria values themselves (logarithms) are not modelled: the stop rule is a nondeterministic truncation.',
     'technique': 'TLA+ exact stage machine + TLC enumeration + state replay; TLC-validated observation events',
 }
 
 CHECKS['C14'] = {
-    'text': 'Covar.tla writes the covariance and modified-covariance fits as least-squares problems on the corrmtx data matrices and solves the normal equations by exact Gaussian elimination (LinAlg.tla); TLC checks residual orthogonality, error = squared residual norm and exact recovery of noiseless unit-circle exponentials on the whole bounded space; every solved state is replayed into arcovar, modcovar, pcovar.ar, pmodcovar.ar and, where every lower-order problem is well posed, into arcovar_marple / modcovar_marple (first p coefficients, zero tail, per-sample minimum). N up to 128, orders up to 20: ObsC14.tla.',
+    'text': 'Covar.tla writes the covariance and modified-covariance fits as least-squares problems on the corrmtx data matrices and solves the normal equations by exact Gaussian elimination (LinAlg.tla); TLC checks residual orthogonality, error = squared residual norm and exact recovery of noiseless unit-circle exponentials on the whole bounded space; every solved state is replayed into arcovar, modcovar, pcovar.ar, pmodcovar.ar and, where every lower-order problem is well posed, into arcovar_marple / modcovar_marple (first p coefficients, zero tail, per-sample minimum). N up to 128, orders up to 20: ObsC14.tla. ObsC14.tla also compares the coefficients with an independent least-squares solve to cond*1e-12 on records built to be ill conditioned; the Marple recursions must not raise when every lower-order problem is well posed (zero samples included).',
     'design_ref': 'DESIGN.md 3/C14',
     'note': 'Exact universe: N<=6/7, p<=2/3 real, N<=5 p<=2 complex; singular normal matrices, exact solutions with |a|>1e3 and (for the fast recursions) data with zero samples or non-generic lower orders are excluded and counted. Large sizes: quantised residuals computed from the code-provided data matrix.',
     'technique': 'TLA+ exact least squares + TLC enumeration + state replay; TLC-validated observation events',
 }
 
 CHECKS['C16'] = {
-    'text': 'Minvar.tla (EXTENDS Burg.tla, LinAlg.tla): exact inverse of the m x m Toeplitz matrix implied by the order m-1 Burg model gives the lag-domain coefficients of e^H R^-1 e; TLC checks that Musicus formula (the mechanism of minvar.py) equals them, trace(R^-1)>0 and positivity on the NFFT=4 grid; every state is replayed into minvar (even/odd NFFT, three sampling rates; PSD, AR vector with leading 1, reflection coefficients) and pminvar. N<=128, m<=16: ObsC16.tla.',
+    'text': 'Minvar.tla (EXTENDS Burg.tla, LinAlg.tla): exact inverse of the m x m Toeplitz matrix implied by the order m-1 Burg model gives the lag-domain coefficients of e^H R^-1 e; TLC checks that Musicus formula (the mechanism of minvar.py) equals them, trace(R^-1)>0 and positivity on the NFFT=4 grid; every state is replayed into minvar (even/odd NFFT, three sampling rates; PSD, AR vector with leading 1, reflection coefficients) and pminvar. N<=128, m<=16: ObsC16.tla. ObsC16.tla draws amplitudes from 1e-4..1e5 and includes 60 dB tones; the returned reflection coefficients must minimise each Burg stage.',
     'design_ref': 'DESIGN.md 3/C16',
     'note': 'Exact universe: m in 2..3, N in 4..5/6; the harness evaluates roots of unity. Large sizes: the quadratic form is recomputed by the harness with numpy (inverse Levinson transcription of LevFn.tla + matrix inverse), ill-conditioned R excluded.',
     'technique': 'TLA+ exact envelope vs mechanism + TLC enumeration + state replay; TLC-validated observation events',
 }
 
 CHECKS['C01'] = {
-    'text': 'Periodogram.tla (on Correlation.tla): the periodogram of windowed data y=x*w in the lag domain (biased autocorrelation of y), exact for every NFFT; TLC checks lag-domain = direct DFT, Parseval and real symmetry on the 4-point grid for every small y. Each state is replayed with x=y/w for the window names (all 29 in the thorough tier, a rotating subset per state in the quick tier) into speriodogram (1-D and 3-column 2-D), the Periodogram class and, rectangular window, CORRELOGRAMPSD with both correlation back ends (Wiener-Khinchin) at even/odd/prime/power-of-two NFFT >= N. Float data up to N=512: ObsC01.tla (Parseval, bin counts, class = function, real bins = first half, Wiener-Khinchin).',
+    'text': 'Periodogram.tla (on Correlation.tla): the periodogram of windowed data y=x*w in the lag domain (biased autocorrelation of y), exact for every NFFT; TLC checks lag-domain = direct DFT, Parseval and real symmetry on the 4-point grid for every small y. Each state is replayed with x=y/w for the window names (all 29 in the thorough tier, a rotating subset per state in the quick tier) into speriodogram (1-D and 3-column 2-D), the Periodogram class and, rectangular window, CORRELOGRAMPSD with both correlation back ends (Wiener-Khinchin) at even/odd/prime/power-of-two NFFT >= N. Float data up to N=512: ObsC01.tla (Parseval, bin counts, class = function, real bins = first half, Wiener-Khinchin). ObsC01.tla also compares every bin with an extended-precision DFT under a per-bin error model on large-dynamic-range data (a component 200 dB below the strongest bin must come out).',
     'design_ref': 'DESIGN.md 3/C01',
     'note': 'Exact universe: real N<=4/5, complex N<=3/4 (Gaussian-integer windowed data); windows whose samples are not finite are skipped here (C20); the harness evaluates roots of unity. NFFT < N is outside the statement.',
     'technique': 'TLA+ exact lag-domain definition + TLC enumeration + state replay with x=y/w; TLC-validated observation events',
@@ -93,7 +93,7 @@ CHECKS['C20'] = {
 }
 
 CHECKS['C03'] = {
-    'text': 'Scaling theorems are TLC invariants of the kernel specifications (Correlation: Raw(cx)=|c|^2 Raw(x); Yule-Walker/Levinson: coefficients and reflection coefficients invariant, variance x |c|^2, for c in {2,-1,i,1+i}) on the whole bounded universe, whose members x and c*x are all replayed by the kernel checks. On float data every estimator of the zoo (12 classes, 18 functional forms) is evaluated on x and c*x, |c| log-uniform in [1e-3,1e3] with complex c for complex data, and ObsC03.tla holds the law table (|c|^2 for PSDs, variances and correlations; invariant coefficients, weights, taper eigenvalues, MUSIC; |c| for EV and singular values; linear eigenspectra) plus unchanged integer decisions (AIC/MDL subspace dimension, Burg order for six criteria).',
+    'text': 'Scaling theorems are TLC invariants of the kernel specifications (Correlation: Raw(cx)=|c|^2 Raw(x); Yule-Walker/Levinson: coefficients and reflection coefficients invariant, variance x |c|^2, for c in {2,-1,i,1+i}) on the whole bounded universe, whose members x and c*x are all replayed by the kernel checks. On float data every estimator of the zoo (12 classes, 18 functional forms) is evaluated on x and c*x, |c| log-uniform in [1e-6,1e6] with complex c for complex data, and ObsC03.tla holds the law table (|c|^2 for PSDs, variances and correlations; invariant coefficients, weights, taper eigenvalues, MUSIC; |c| for EV and singular values; linear eigenspectra) plus unchanged integer decisions (AIC/MDL subspace dimension, Burg order for six criteria). Both ends |c| = 1e-6 and 1e6 are exercised in every run.',
     'design_ref': 'DESIGN.md 3/C03',
     'note': 'The factor-1e6 dynamic range is decided from quantised observation events (1e-4 relative) only; the exact universe reaches |c|<=2.',
     'technique': 'TLC invariants (scaling theorems) on exact kernels + TLC-validated observation events with a law table in TLA+',
@@ -113,21 +113,21 @@ CHECKS['C04'] = {
     'technique': 'TLC invariants (modulation/conjugation/reversal theorems) on the exact kernel + TLC-validated observation events with the class table in TLA+',
 }
 CHECKS['C05'] = {
-    'text': 'In every kernel specification the spectrum is a function of NFFT-free lag/coefficient-domain data, evaluated by the replays at several NFFT (even, odd, multiples); Periodogram.tla states grid consistency (NFFT=2 spectrum = NFFT=4 spectrum at even bins) as a TLC invariant. ObsC05.tla holds the admissibility table and the clauses; the driver compares, for all twelve classes and pairs (NFFT, c NFFT), c in {2,3,4,5}, incl. odd NFFT, the PSD at common frequencies, the length of the finer grid and the model parameters (AR, MA, variance, reflection coefficients, singular values, taper eigenvalues).',
+    'text': 'In every kernel specification the spectrum is a function of NFFT-free lag/coefficient-domain data, evaluated by the replays at several NFFT (even, odd, multiples); Periodogram.tla states grid consistency (NFFT=2 spectrum = NFFT=4 spectrum at even bins) as a TLC invariant. ObsC05.tla holds the admissibility table and the clauses; the driver compares, for all twelve classes and pairs (NFFT, c NFFT), c in {2,3,4,5}, incl. odd NFFT, the PSD at common frequencies, the length of the finer grid and the model parameters (AR, MA, variance, reflection coefficients, singular values, taper eigenvalues). Each object must report the requested grid (NFFT, df, frequencies()) after computing.',
     'design_ref': 'DESIGN.md 3/C05',
     'note': 'Decided at class level from quantised observation events (1e-7 relative).',
     'technique': 'TLC invariant (grid consistency) on the exact kernel + TLC-validated observation events with the admissibility table in TLA+',
 }
 
 CHECKS['C15'] = {
-    'text': 'Arma.tla (on Correlation.tla, LevFn.tla, LinAlg.tla): ma() as two chained exact Yule-Walker fits and, for P=Q, the AR part of arma_estimate as the exact least-squares solution of the modified Yule-Walker equations over unbiased lags; TLC checks Q coefficients, invertibility (second-fit reflection coefficients < 1) and positive variance; states are replayed into ma, pma (.ma/.rho) and arma_estimate (AR values and count). ObsC15.tla holds the documented domains and validates on float data (N 16..256): MA/ARMA coefficient counts on both sides of the P<=4 solver switch, MA zeros inside the unit circle, positive finite variance, the modified Yule-Walker normal equations for P=Q, and for every AR/MA/ARMA class: PSD positive, proportional to |B|^2/|A|^2 of the exposed coefficients with constant rho/sampling when rho is exposed.',
+    'text': 'Arma.tla (on Correlation.tla, LevFn.tla, LinAlg.tla): ma() as two chained exact Yule-Walker fits and, for P=Q, the AR part of arma_estimate as the exact least-squares solution of the modified Yule-Walker equations over unbiased lags; TLC checks Q coefficients, invertibility (second-fit reflection coefficients < 1) and positive variance; states are replayed into ma, pma (.ma/.rho) and arma_estimate (AR values and count). ObsC15.tla holds the documented domains and validates on float data (N 16..256): MA/ARMA coefficient counts on both sides of the P<=4 solver switch, MA zeros inside the unit circle, positive finite variance, the modified Yule-Walker normal equations for P=Q, and for every AR/MA/ARMA class: PSD positive, proportional to |B|^2/|A|^2 of the exposed coefficients with constant rho/sampling when rho is exposed. Narrow-band records fitted with P=Q in {6,8,10} exercise ill-conditioned systems: the AR coefficients are compared with an independent least-squares solve to cond*1e-12.',
     'design_ref': 'DESIGN.md 3/C15',
     'note': 'Exact universe tiny (N<=5/6, M<=3, P=Q<=2, lag<=4); the P>4 branch and the MA stage of arma_estimate are decided from observation events only; |B|^2/|A|^2 is evaluated by the harness with numpy FFT.',
     'technique': 'TLA+ exact kernel composition + TLC enumeration + state replay; TLC-validated observation events with the domain table in TLA+',
 }
 
 CHECKS['C19'] = {
-    'text': 'MultiTaper.tla: pmtm / MultiTapering with caller-supplied rational tapers on the exact 4-point grid (eigenspectra, unity and eigen weights, class output; TLC checks non-negativity, Parseval per taper and real symmetry over every small x); each state is replayed into pmtm(e=, v=) (eigenspectra, weights, eigenvalues) and MultiTapering(e=, v=) (psd, doubled one-sided for real data). ObsC19.tla validates, with genuine Slepian tapers, N up to 256/1024, k from 1 to 2NW, NFFT >= N and the three methods: eigenspectra = DFT of taper*data, returned eigenvalues, unity/eigen weights, adaptive weights real, in [0, 1/lambda] and equal to Thomson formula at the converged spectrum, class psd = weighted mean (folded for real data), real and non-negative, precomputed tapers = internally computed.',
+    'text': 'MultiTaper.tla: pmtm / MultiTapering with caller-supplied rational tapers on the exact 4-point grid (eigenspectra, unity and eigen weights, class output; TLC checks non-negativity, Parseval per taper and real symmetry over every small x); each state is replayed into pmtm(e=, v=) (eigenspectra, weights, eigenvalues) and MultiTapering(e=, v=) (psd, doubled one-sided for real data). ObsC19.tla validates, with genuine Slepian tapers, N up to 256/1024, k from 1 to 2NW, NFFT >= N and the three methods: eigenspectra = DFT of taper*data, returned eigenvalues, unity/eigen weights, adaptive weights real, in [0, 1/lambda] and equal to Thomson formula at the converged spectrum, class psd = weighted mean (folded for real data), real and non-negative, precomputed tapers = internally computed. Supplied tapers together with NW / k, and k > 2NW, are directed cases.',
     'design_ref': 'DESIGN.md 3/C19',
     'note': 'Exact part: N in {3,4}, NFFT=4, unity/eigen weights only; the adaptive fixed point is decided from events with a tolerance of 0.25 of the largest weight (the iteration stops on a mean absolute change; measured worst case 0.05). dpss itself is taken as given (C18 not claimed).',
     'technique': 'TLA+ exact 4-point-grid model + TLC enumeration + state replay; TLC-validated observation events',
